@@ -4,6 +4,8 @@ import Ledger.Proofs.MachineDest
 /-! Statement-level and script-level accounting: `finishSend`, `evalStmt`, `runStmts`. -/
 namespace Ledger.Machine
 
+variable {cfg : Cfg}
+
 theorem inTo_nonneg (a : String) (ps : List Posting) (h : ∀ p ∈ ps, 0 ≤ p.amount) : 0 ≤ inTo a ps := by
   induction ps with
   | nil => simp [inTo]
@@ -89,9 +91,9 @@ def AllotSrcBound (env : Env) (a c : String) (B : Int) : AllotSrcList → Prop
   | .nil => True
   | .cons _ s rest => SrcBound env a c B s ∧ AllotSrcBound env a c B rest
 
-theorem evalAllotSrc_ok (env : Env) (asset monAsset : String) :
+theorem evalAllotSrc_ok (cfg : Cfg) (env : Env) (asset monAsset : String) :
     (items : AllotSrcList) → (parts : List Int) → (b : Balances) → (rs : List Funding) → (b' : Balances) →
-    evalAllotSrc env asset monAsset items parts b = .ok (rs, b') →
+    evalAllotSrc cfg env asset monAsset items parts b = .ok (rs, b') →
     SrcOK b b' rs ∧ (∀ r ∈ rs, r.asset = monAsset) ∧
     (rs.map (fun r => total r.parts)) = parts.take items.length ∧
     (∀ a c B, a ≠ "world" → 0 ≤ B → b.WF → AllotSrcBound env a c B items → Floor a c B b b')
@@ -110,7 +112,7 @@ theorem evalAllotSrc_ok (env : Env) (asset monAsset : String) :
     split at h
     · cases h
     · rename_i f b1 hs
-      obtain ⟨i1, i2⟩ := evalSource_ok env asset s b f b1 hs
+      obtain ⟨i1, i2⟩ := evalSource_ok cfg env asset s b f b1 hs
       have hn0 : partsNonneg f.parts := i1.nonneg f (by simp)
       split at h
       · cases h
@@ -119,7 +121,7 @@ theorem evalAllotSrc_ok (env : Env) (asset monAsset : String) :
         split at h
         · cases h
         · rename_i rs' b3 hrest
-          obtain ⟨j1, j2, j3, j4⟩ := evalAllotSrc_ok env asset monAsset rest ps b2 rs' b3 hrest
+          obtain ⟨j1, j2, j3, j4⟩ := evalAllotSrc_ok cfg env asset monAsset rest ps b2 rs' b3 hrest
           cases h
           have hr : SrcOK b b2 [r] := SrcOK.single_of_delta (t.nonneg hn0)
             (Delta.trans i1.delta t.delta (by intro a c; simp [inFlight]; omega))
@@ -263,7 +265,7 @@ theorem StmtOK.ofSend {env : Env} {s : Stmt} {st st' : State} {b1 : Balances} {f
     obtain ⟨v2, g2, l2⟩ := hfin.mono hn a c v1 ha (hd.wf hwf) g1
     exact ⟨v2, g2, by omega⟩
 
-theorem evalStmt_ok {env : Env} {s : Stmt} {st st' : State} (h : evalStmt env s st = .ok st') :
+theorem evalStmt_ok {env : Env} {s : Stmt} {st st' : State} (h : evalStmt cfg env s st = .ok st') :
     ∃ new, StmtOK env s st st' new := by
   cases s with
   | print e =>
@@ -360,7 +362,7 @@ theorem evalStmt_ok {env : Env} {s : Stmt} {st st' : State} (h : evalStmt env s 
         split at h
         · cases h
         · rename_i f b1 hs
-          obtain ⟨i1, i2⟩ := evalSource_ok env asset s st.bal f b1 hs
+          obtain ⟨i1, i2⟩ := evalSource_ok cfg env asset s st.bal f b1 hs
           have hn0 : partsNonneg f.parts := i1.nonneg f (by simp)
           split at h
           · cases h
@@ -394,7 +396,7 @@ theorem evalStmt_ok {env : Env} {s : Stmt} {st st' : State} (h : evalStmt env s 
               split at h
               · cases h
               · rename_i fs b1 hs
-                obtain ⟨i1, _, _, i4⟩ := evalAllotSrc_ok env asset m.1 items _ st.bal fs b1 hs
+                obtain ⟨i1, _, _, i4⟩ := evalAllotSrc_ok cfg env asset m.1 items _ st.bal fs b1 hs
                 split at h
                 · cases h
                 · rename_i f hasm
@@ -415,7 +417,7 @@ theorem evalStmt_ok {env : Env} {s : Stmt} {st st' : State} (h : evalStmt env s 
         split at h
         · cases h
         · rename_i f b1 hs
-          obtain ⟨i1, i2⟩ := evalSource_ok env asset s st.bal f b1 hs
+          obtain ⟨i1, i2⟩ := evalSource_ok cfg env asset s st.bal f b1 hs
           have hn0 : partsNonneg f.parts := i1.nonneg f (by simp)
           obtain ⟨new, rem, fin, _⟩ := finishSend_ok h
           refine ⟨new, StmtOK.ofSend (f := f) (b1 := b1) ?_ hn0 ?_ fin⟩
@@ -432,7 +434,7 @@ def StmtsBound (env : Env) (a c : String) (B : Int) (ss : List Stmt) : Prop :=
 
 /-- What a run of statements guarantees for one tracked pair of a non-world account. -/
 theorem runStmts_ok {env : Env} (henv : EnvNonneg env) :
-    (ss : List Stmt) → (st st' : State) → runStmts env ss st = .ok st' → st.bal.WF →
+    (ss : List Stmt) → (st st' : State) → runStmts cfg env ss st = .ok st' → st.bal.WF →
     ∃ new, st'.postings = st.postings ++ new ∧ st'.bal.WF ∧
       (∀ a c v, a ≠ "world" → st.bal.get a c = some v →
         ∃ v', st'.bal.get a c = some v' ∧
